@@ -74,6 +74,7 @@ KINDS = {
                   "hcfg": tlcgraph.harness_cfg_unmanaged},
     "syncmgr": {"spec": "SyncManagers.tla", "monitor": "SyncMgrObs.tla", "base": configs.MBASE, "hcfg": tlcgraph.harness_cfg_syncmgr,
                 "binary": "xh"},
+    "pgmgr": {"spec": "PgManager.tla", "monitor": "PgObs.tla", "base": configs.PBASE, "hcfg": tlcgraph.harness_cfg_pgmgr, "binary": "xh"},
     "redismgr": {"spec": "RedisManager.tla", "monitor": "RedisObs.tla", "base": configs.RBASE, "hcfg": tlcgraph.harness_cfg_redismgr,
                  "binary": "xh"},
     "sync": {"spec": "SyncWrapper.tla", "monitor": "SyncObs.tla", "base": configs.SBASE, "hcfg": tlcgraph.harness_cfg_sync},
